@@ -283,6 +283,11 @@ def scen_checksum(ctx, M):
         def __init__(self):
             self.pos = 0
 
+        def __getattr__(self, name):
+            # an implementation that needs more of the file API than the
+            # stub offers cannot be decided here (inconclusive, not wrong)
+            raise core.Unsupported('file stub has no %s()' % name)
+
         def seek(self, off, whence=0):
             self.pos = off if whence == 0 else N + off
             return self.pos
